@@ -507,3 +507,56 @@ func cfcaVerifyAgree(t *engine.T, m signMode, in, supplied []byte, p7 *pkcs7.PKC
 		t.Fail("cfca/verify-wrapper-disagrees/"+m.name, "cfca verdict %v, pkcs7 verdict %v on %s", cerr, pk, engine.Hex(in))
 	}
 }
+
+// pskKeyBufferRotated: one key BUFFER serves several calls through the same content-cipher object while its contents
+// change in place (key rotation, a pooled buffer): encrypt under K1 in B, overwrite B with K2 (every byte differs),
+// decrypt with B - this is another key and must not yield the content; restore K1 in B - decrypts. Then the other
+// way round (encrypt under K2 after K1 was used from the same buffer: the message must be a K2 message).
+func pskKeyBufferRotated(t *engine.T) {
+	for _, api := range pskAPIs {
+		for _, cs := range contentCiphers {
+			for _, n := range []int{1, 16, 40} {
+				content := contentOf(n)
+				k1, k2 := pskOf(cs.c.KeySize(), 3), pskOf(cs.c.KeySize(), 0xfc)
+				B := append([]byte{}, k1...)
+				key := "psk/key-buffer-rotated/" + api.name + "/" + cs.name
+				var art []byte
+				var err error
+				if t.Guard(key, func() { art, err = api.enc(cs.c, content, B) }) || err != nil {
+					t.Outcome("psk-rotated/not-built")
+					continue
+				}
+				copy(B, k2)
+				var got []byte
+				if t.Guard(key, func() { got, err = pskDecrypt(art, B) }) {
+					continue
+				}
+				t.Eval(2)
+				if err == nil && bytes.Equal(got, content) {
+					t.Fail(key+"/other-key-in-the-same-buffer-yields-content", "%s %s len=%d: the message was made under K1; after the caller overwrote the key buffer with K2 (all bytes different) DecryptUsingPSK(buffer) still returns the content", api.name, cs.name, n)
+				}
+				copy(B, k1)
+				if t.Guard(key, func() { got, err = pskDecrypt(art, B) }) {
+					continue
+				}
+				if err != nil || !bytes.Equal(got, content) {
+					t.Fail(key+"/right-key-restored-does-not-decrypt", "%s %s len=%d: %v", api.name, cs.name, n, err)
+				}
+				// second message from the same buffer, now holding K2: it must open under a fresh copy of K2 only
+				copy(B, k2)
+				var art2 []byte
+				if t.Guard(key, func() { art2, err = api.enc(cs.c, content, B) }) || err != nil {
+					continue
+				}
+				if g2, e2 := pskDecrypt(art2, append([]byte{}, k2...)); e2 != nil || !bytes.Equal(g2, content) {
+					t.Fail(key+"/message-not-under-the-current-buffer-contents", "%s %s len=%d: a message encrypted from a buffer that now holds K2 does not open under K2: %v", api.name, cs.name, n, e2)
+				}
+				if g1, e1 := pskDecrypt(art2, append([]byte{}, k1...)); e1 == nil && bytes.Equal(g1, content) {
+					t.Fail(key+"/message-under-the-previous-buffer-contents", "%s %s len=%d: a message encrypted from a buffer that now holds K2 opens under the earlier contents K1", api.name, cs.name, n)
+				}
+				t.Eval(3)
+				t.Nontrivial(fmt.Sprintf("psk-rotated/%s/%s/%d", api.name, cs.name, n))
+			}
+		}
+	}
+}
